@@ -24,9 +24,11 @@ func findInstrs(fn *ssa.Function, pred func(ssa.Instruction) bool) []ssa.Instruc
 					out = append(out, in)
 				}
 				if call, ok := in.(*ssa.Call); ok && depth < 2 {
-					if h := call.Call.StaticCallee(); inlinable(h) && !seen[h] {
-						seen[h] = true
-						walk(h, depth+1)
+					for _, h := range walkTargets(call) {
+						if !seen[h] {
+							seen[h] = true
+							walk(h, depth+1)
+						}
 					}
 				}
 			}
@@ -371,9 +373,11 @@ func blocksDeep(fn *ssa.Function) []*ssa.BasicBlock {
 		for _, b := range g.Blocks {
 			for _, in := range b.Instrs {
 				if call, ok := in.(*ssa.Call); ok && depth < 2 {
-					if h := call.Call.StaticCallee(); inlinable(h) && !seen[h] {
-						seen[h] = true
-						walk(h, depth+1)
+					for _, h := range walkTargets(call) {
+						if !seen[h] {
+							seen[h] = true
+							walk(h, depth+1)
+						}
 					}
 				}
 			}
